@@ -794,3 +794,20 @@ def load_program(root="/repo"):
     if root not in _PROGRAMS:
         _PROGRAMS[root] = Program(root)
     return _PROGRAMS[root]
+
+
+def clone(node):
+    """Deep copy of an AST subtree WITHOUT the .parent back-links
+    (copy.deepcopy would follow them and copy the whole module)."""
+    if isinstance(node, list):
+        return [clone(x) for x in node]
+    if not isinstance(node, ast.AST):
+        return node
+    new = node.__class__()
+    for f in node._fields:
+        if hasattr(node, f):
+            setattr(new, f, clone(getattr(node, f)))
+    for a in ("lineno", "col_offset", "end_lineno", "end_col_offset"):
+        if hasattr(node, a):
+            setattr(new, a, getattr(node, a))
+    return new
